@@ -59,15 +59,18 @@ class _DebugLogging:
     def __enter__(self):
         import logging
         self.lg = logging.getLogger('pjrpc')
-        self.saved = (self.lg.level, self.lg.propagate, list(self.lg.handlers))
+        self.saved = (self.lg.level, self.lg.propagate, list(self.lg.handlers), logging.root.manager.disable)
+        logging.disable(logging.NOTSET)         # (the shard runner silences logging globally: lifted for this dispatch)
         self.lg.setLevel(logging.DEBUG)
         self.lg.propagate = False
         self.lg.handlers = [logging.NullHandler()]
 
     def __exit__(self, *exc):
+        import logging
         self.lg.setLevel(self.saved[0])
         self.lg.propagate = self.saved[1]
         self.lg.handlers = self.saved[2]
+        logging.disable(self.saved[3])
         return False
 
 
